@@ -22,7 +22,7 @@ LIVE = ['RUNNING', 'IDLE', 'WAITING', 'DELAYED', 'PAUSED']
 
 
 # ----------------------------------------------------------------------------- generator
-def gen_reverse(rng, p_cycle=0.0, p_defaults=0.12, p_bad_target=0.04):
+def gen_reverse(rng, p_cycle=0.0, p_defaults=0.12, p_bad_target=0.04, p_missing=0.0):
     """{'tasks': [{'name', 'requires': [..], 'form': 'list'|'str'}], 'defaults': [..], 'target': name|None}
     The definition order of the tasks is independent of the dependency order."""
     n = rng.choice([2, 3, 3, 4, 4, 5, 5, 6, 6, 7, 8])
@@ -84,6 +84,8 @@ def gen_reverse(rng, p_cycle=0.0, p_defaults=0.12, p_bad_target=0.04):
         target = deep[0] if rng.random() < 0.6 else rng.choice(deep[:max(1, n // 2)])
     if rng.random() < p_bad_target:
         target = rng.choice([None, 'zz'])
+    if rng.random() < p_missing:
+        rng.choice(tasks)['requires'].append('zz')      # a required name that is not a task
     prog = {'tasks': tasks, 'defaults': defaults, 'target': target}
     prog['cyclic'] = bool(find_cycle(prog))
     return prog
@@ -150,6 +152,39 @@ def spec_json(prog):
             'defaultRequires': prog['defaults'], 'target': prog['target']}
 
 
+# ----------------------------------------------------------------------------- definition-time validation
+def real_validate(yaml_text):
+    """the REAL semantic validation of the definition: 'ok' | 'task-not-found' | 'requires-cycle' | other"""
+    from harness import boot
+    boot.boot()          # import-order trap: mistral.tests.unit first
+    from mistral.lang import parser as spec_parser
+    from mistral import exceptions as exc
+    try:
+        spec_parser.get_workflow_list_spec_from_yaml(yaml_text)
+        return 'ok'
+    except exc.InvalidModelException as e:
+        m = str(e)
+        if 'not found' in m:
+            return 'task-not-found'
+        if "cyclic 'requires'" in m:
+            return 'requires-cycle'
+        return 'other:' + m[:80]
+    except exc.MistralException as e:
+        return 'other:%s:%s' % (type(e).__name__, str(e)[:80])
+
+
+def check_validation(ctx, drv, prog, yaml_text):
+    """real validator vs Mistral.Reverse.checkIntegrity; returns the real verdict"""
+    rv = real_validate(yaml_text)
+    mv = drv.call('reverse.integrity', {'spec': spec_json(prog)})
+    ctx.count('reverse-valid', 'verdict:' + rv.split(':')[0])
+    ctx.evaluated('reverse-valid', [yaml_text], nontrivial=bool(prog['cyclic']) or rv != 'ok'
+                  or any(len(t['requires']) > 1 for t in prog['tasks']))
+    if mv != rv:
+        ctx.disagree('reverse-valid', {'yaml': yaml_text, 'spec': spec_json(prog), 'cyclic': prog['cyclic']}, mv, rv)
+    return rv
+
+
 # ----------------------------------------------------------------------------- (i) function level
 def gen_rows(rng, prog):
     """synthetic rows: either arbitrary, or a plausible snapshot of a run (a downward-closed set of
@@ -193,7 +228,9 @@ class ReverseImpl(object):
         self.db_api = db_api
         self.wf_base = wf_base
         self.yaml = render_yaml(prog)
-        self.wf_spec = spec_parser.get_workflow_list_spec_from_yaml(self.yaml).get_workflows()[0]
+        # validate=False: the controller is also exercised on definitions the validator rejects (stored
+        # definitions are loaded without validation)
+        self.wf_spec = spec_parser.get_workflow_list_spec_from_yaml(self.yaml, validate=False).get_workflows()[0]
         params = {} if prog['target'] is None else {'task_name': prog['target']}
         with db_api.transaction():
             db_api.delete_task_executions()
@@ -276,7 +313,8 @@ def run_fn_chunk(ctx, n_programs, rows_per_program):
     engine_driver.EngineWorld(seed='%s-%s' % (ctx.seed, getattr(ctx, 'chunk', 0)))
     drv = ctx.driver()
     for pi in range(n_programs):
-        prog = gen_reverse(ctx.rng, p_cycle=0.2)
+        prog = gen_reverse(ctx.rng, p_cycle=0.25, p_missing=0.05)
+        check_validation(ctx, drv, prog, render_yaml(prog))
         try:
             impl = ReverseImpl(prog)
         except Exception as e:
@@ -337,7 +375,7 @@ def fmt_real(i):
 def real_obs(world, mapper):
     s = world.snapshot()
     if not s['wfs']:
-        return {'wf': 'IDLE', 'tasks': [], 'pending': []}, s
+        return {'wf': 'IDLE', 'tasks': [], 'pending': [], 'backlog': 0}, s
     occ = {}
     rows = []
     for t in s['tasks']:
@@ -357,15 +395,16 @@ def real_obs(world, mapper):
         if j.func_name.endswith('_check_and_fix_integrity'):
             continue
         pend.append(fmt_real(mapper.item(('job', j))))
-    return {'wf': s['wfs'][0]['state'], 'tasks': sorted(rows), 'pending': sorted(pend)}, s
+    return {'wf': s['wfs'][0]['state'], 'tasks': sorted(rows), 'pending': sorted(pend),
+            'backlog': s['wfs'][0]['backlog']}, s
 
 
 def model_obs(o):
     return {'wf': o['wf'], 'tasks': sorted([[t[0], t[1], t[2], t[3], t[4], sorted(t[5])] for t in o['tasks']]),
-            'pending': sorted(o['pending'])}
+            'pending': sorted(o['pending']), 'backlog': 0}     # the model has no backlog: it must stay empty
 
 
-def run_case(prog, table, policy, seed, max_steps=400):
+def run_case(prog, table, policy, seed, max_steps=400, ops=None):
     from harness.engine_driver import EngineWorld
     from harness import core_stream
     w = EngineWorld(seed=seed)
@@ -381,17 +420,39 @@ def run_case(prog, table, policy, seed, max_steps=400):
     robs, snaps = [o], [s]
     step = 0
     unsupported = None
+    ops = sorted([dict(o) for o in (ops or [])], key=lambda o: o['at'])
+    oi = 0
     while step < max_steps:
+        while root is not None and oi < len(ops) and ops[oi]['at'] <= step:
+            o = ops[oi]
+            oi += 1
+            if o['op'] == 'pause':
+                w.op('pause_workflow', root)
+                events.append({'ev': 'pause'})
+            elif o['op'] == 'resume':
+                w.op('resume_workflow', root)
+                events.append({'ev': 'resume'})
+            elif o['op'] == 'stop':
+                w.op('stop_workflow', root, o['state'], 'msg')
+                events.append({'ev': 'stop', 'state': o['state']})
+            ob, sn = real_obs(w, mapper)
+            robs.append(ob)
+            snaps.append(sn)
         en = [e for e in w.enabled() if not (e[0] == 'job' and e[1].func_name.endswith('_check_and_fix_integrity'))]
         if not en:
+            if root is not None and oi < len(ops):
+                ops[oi]['at'] = step          # nothing to deliver: the remaining operator commands fire now
+                continue
             break
         it = er.pick(rng, policy, en)
         mi = mapper.item(it)
         if mi is None or mi.get('t', 'x') is None or mi['k'] not in (
                 'postStartTask', 'rpcStartTask', 'postRunAction', 'runAction', 'rpcResult', 'postCheck') \
-                or mi.get('occ') or mi.get('firstRun') is False:
+                or mi.get('occ'):
             unsupported = [w.describe(it), mi]
             break
+        if mi.get('firstRun') is False:
+            mi = dict(mi, k={'postStartTask': 'postStartExisting', 'rpcStartTask': 'rpcStartExisting'}[mi['k']])
         if it[0] == 'p' and it[1].kind == 'action':
             w.deliver(it, oracle=oracle)
             res = [p for p in w.pending if p.kind == 'rpc' and p.data['method'] == 'on_action_complete']
@@ -447,6 +508,15 @@ def monitors(prog, r):
                 yield ('task-action-run-more-than-once', {'step': k, 'task_ord': tid, 'actions': c})
     if r['exhausted'] or r['unsupported']:
         return
+    ops = r.get('ops') or []
+    # a stopped run ends as it was told to, a run left paused does not end: the outcome clause is about
+    # runs that were left to finish (pause followed by resume included)
+    if any(o['op'] == 'stop' for o in ops) or \
+            sum(1 for o in ops if o['op'] == 'pause') > sum(1 for o in ops if o['op'] == 'resume'):
+        for e in r['errors']:
+            if not e['declared']:
+                yield ('undeclared-error', {'where': e['where'], 'type': e['type'], 'msg': e['msg'][:200]})
+        return
     s = r['snaps'][-1]
     if not s['wfs']:
         if need is not None:
@@ -474,9 +544,18 @@ def signature(kind, prog):
     return {'stream': 'reverse', 'kind': kind, 'cyclic_requires': bool(prog['cyclic'])}
 
 
-def check_case(ctx, drv, prog, table, policy, seed, stream='reverse'):
-    r = run_case(prog, table, policy, seed)
-    case = {'stream': 'reverse', 'program': prog, 'yaml': r['yaml'], 'oracle': table, 'policy': policy, 'seed': seed}
+def check_case(ctx, drv, prog, table, policy, seed, stream='reverse', ops=None):
+    rv = check_validation(ctx, drv, prog, render_yaml(prog))
+    if rv != 'ok':
+        ctx.count(stream, 'definition-rejected:' + rv.split(':')[0])
+        return None
+    ops = ops or []
+    r = run_case(prog, table, policy, seed, ops=ops)
+    r['ops'] = ops
+    for o in ops:
+        ctx.count(stream, 'op:' + o['op'])
+    case = {'stream': 'reverse', 'program': prog, 'yaml': r['yaml'], 'oracle': table, 'policy': policy, 'seed': seed,
+            'ops': ops}
     hits = 0
     for kind, detail in monitors(prog, r):
         hits += 1
@@ -498,8 +577,8 @@ def check_case(ctx, drv, prog, table, policy, seed, stream='reverse'):
     need = closure(prog)
     if need is not None and len(need) < len(prog['tasks']):
         ctx.count(stream, 'has-unneeded-tasks')
-    ctx.evaluated(stream, [r['yaml'], prog['target'], table, policy, seed],
-                  nontrivial=len(r['real'][-1]['tasks']) >= 2 or bool(table))
+    ctx.evaluated(stream, [r['yaml'], prog['target'], table, policy, seed, ops],
+                  nontrivial=len(r['real'][-1]['tasks']) >= 2 or bool(table) or bool(ops))
     if not isinstance(mo, list):
         ctx.disagree(stream, dict(case, events=r['events']), mo, 'model refused the input')
         return r
@@ -531,22 +610,38 @@ def run_corpus(ctx, drv):
     for f in sorted(glob.glob(os.path.join(core.VERIF, 'corpus', 'C04', 'reverse-*.json'))):
         c = json.load(open(f))
         ctx.count('reverse', 'corpus')
-        check_case(ctx, drv, c['program'], c['oracle'], c['policy'], c['seed'])
+        check_case(ctx, drv, c['program'], c['oracle'], c['policy'], c['seed'], ops=c.get('ops'))
 
 
-def run_engine_chunk(ctx, n_programs, p_cycle=0.06, p_err=None):
+def gen_ops(rng, p_pause=0.35, p_stop=0.12):
+    ops = []
+    if rng.random() < p_pause:
+        k1 = rng.randint(0, 25)
+        ops.append({'at': k1, 'op': 'pause'})
+        if rng.random() < 0.85:
+            ops.append({'at': rng.choice([k1 + rng.randint(0, 12), 10 ** 6]), 'op': 'resume'})
+        if rng.random() < 0.2:
+            k2 = k1 + rng.randint(1, 20)
+            ops.append({'at': k2, 'op': 'pause'})
+            ops.append({'at': rng.choice([k2 + rng.randint(0, 8), 10 ** 6]), 'op': 'resume'})
+    if rng.random() < p_stop:
+        ops.append({'at': rng.randint(0, 30), 'op': 'stop', 'state': rng.choice(['SUCCESS', 'ERROR', 'CANCELLED'])})
+    return sorted(ops, key=lambda o: o['at'])
+
+
+def run_engine_chunk(ctx, n_programs, p_cycle=0.08, p_err=None):
     drv = ctx.driver()
     rng = ctx.rng
     if getattr(ctx, 'chunk', 0) == 0:
         run_corpus(ctx, drv)
     for i in range(n_programs):
-        prog = gen_reverse(rng, p_cycle=p_cycle)
+        prog = gen_reverse(rng, p_cycle=p_cycle, p_missing=0.02)
         pe = p_err if p_err is not None else rng.choice([0.0, 0.1, 0.1, 0.25])
         table = gen_table(rng, prog, pe)
         policy = rng.choice(['random', 'random', 'fifo', 'lifo'])
         seed = rng.getrandbits(32)
         try:
-            check_case(ctx, drv, prog, table, policy, seed)
+            check_case(ctx, drv, prog, table, policy, seed, ops=gen_ops(rng))
         except Exception as e:
             from mistral import exceptions as exc
             if isinstance(e, exc.MistralException):
@@ -563,6 +658,9 @@ def run_chunk(ctx, fn_programs, rows_per_program, engine_programs, p_err=None):
 
 def replay(ctx, rep):
     r = rep['replay']
-    res = check_case(ctx, ctx.driver(), r['program'], r['oracle'], r['policy'], r['seed'])
+    res = check_case(ctx, ctx.driver(), r['program'], r['oracle'], r['policy'], r['seed'], ops=r.get('ops'))
+    if res is None:
+        print('replay: the definition is rejected at creation')
+        return
     print('replay: reverse workflow, target %s, final %s, %d events' % (
         r['program']['target'], res['real'][-1]['wf'], len(res['events'])))
